@@ -123,7 +123,8 @@ extern char aw_die_msg[256];
 extern long aw_failed_site; /* return address of the failed request */
 void aw_reset(void);
 /* run f(arg) in a forked child; returns fate: 0 returned normally (child's *ret passed back), 1 m4ri_die+abort,
- * 2 other abort (sanitizer), 3 SIGSEGV/SIGBUS, 4 other signal, 5 exit nonzero, 6 timeout */
+ * 2 abort with a sanitizer report, 3 SIGSEGV/SIGBUS, 4 other signal, 5 exit nonzero, 6 timeout, 7 abort() without sanitizer report and
+ * without m4ri_die (e.g. libpng's default error handler) */
 typedef struct { int fate; int sig; int status; int die_entered; char die_msg[256]; char note[512]; uint64_t ret; long nalloc; long site; } vx_fate;
 vx_fate vx_fork_call(uint64_t (*f)(void *), void *arg, int timeout_s);
 
